@@ -69,6 +69,11 @@ def sweep(tier: str) -> Sweep:
                     for q in ("pre", "post", "dev", "local", "build"):
                         if hasattr(nv, q):
                             sw.check(not getattr(nv, q), "lower-order segments are not reset", {**case, "clause": "reset-seg"}, None, str(nv))
+                # raising a segment resets the segments below it (packaging: pre > post > dev > local; semantic: pre > build)
+                segs = {"pkg": ["pre", "post", "dev", "local"], "sem": ["pre", "build"]}.get(c, [])
+                if part in segs:
+                    for q in segs[segs.index(part) + 1:]:
+                        sw.check(not getattr(nv, q, None), "lower-order segments are not reset", {**case, "clause": "reset-seg-below"}, None, str(nv))
                 sw.check(nv is not o, "next_version returned the receiver itself", {**case, "clause": "new-object"})
             # bump_major / minor / patch
             for which, exp in (("major", (o.major + 1, 0, 0)), ("minor", (o.major, o.minor + 1, 0)), ("patch", (o.major, o.minor, o.patch + 1))):
